@@ -38,6 +38,7 @@ import copy
 import glob
 import itertools
 import json
+import math
 import os
 import random as pyrandom
 import re
@@ -656,9 +657,27 @@ def judge_pd(chk, case):
     return None
 
 
+def cond_rtol(P, n, f):
+    """extra RELATIVE tolerance for probabilities conditioned on the photon filter.  The code's closed form
+    p2 = (1 - x - sqrt(1 - 2x)) / g2 (x = brightness*g2) cancels: absolute error about 1.5e-16 / g2, i.e. a relative
+    error 1.5e-16 / (g2 * p2) that grows like 1/x^2 for a good source.  Unconditioned probabilities only see the
+    (negligible) absolute error, but dividing by the retained mass of a strict filter turns the relative error of
+    every factor p2 (at most n of them, in numerator and denominator) into a relative error of the entry."""
+    d = derived(P)
+    if not f or d["g2"] == 0:
+        return 0.0
+    p2 = d["beta"] * (1 - d["q"]) / (1 + d["q"])
+    return float(2 * n * F(3, 2 * 10 ** 16) / (d["g2"] * p2))
+
+
+def close_rel(x, xhat, rtol):
+    return core.close(x, xhat) or abs(x - xhat) <= rtol * abs(xhat)
+
+
 def table_oracle(P, n, f, table, perf, zpp):
     """the event table against the multinomial law of the categorical counts, exact Fractions"""
     d = derived(P)
+    rtol = cond_rtol(P, n, f)
     beta, q, eta = d["beta"], d["q"], d["eta"]
     p2 = beta * (1 - q) / (1 + q)
     p1 = beta - p2
@@ -685,7 +704,7 @@ def table_oracle(P, n, f, table, perf, zpp):
         w = want.get(key, F(0))
         if f and mass:
             w = w / mass
-        if not core.close(table.get(key, 0.0), float(w)):
+        if not close_rel(table.get(key, 0.0), float(w), rtol):
             return ("table-entry", f"event {key}: table {table.get(key, 0.0)!r}, multinomial law "
                                    f"{'conditioned on the filter ' if f else ''}{float(w)!r}")
     if f and any(i + j + 2 * k < f for (i, j, k) in table):
@@ -735,8 +754,11 @@ def judge_table(chk, case):
     if set(model) != set(table):
         fail = f"event keys differ: code-only {sorted(set(table) - set(model))[:4]}, model-only {sorted(set(model) - set(table))[:4]}"
     else:
+        rtol = cond_rtol(P, n, f)
+        if rtol > 1e-9:
+            chk.count("filtered_table_tolerance_widened", "1e%+d" % round(math.log10(rtol)))
         for k in model:
-            if not core.close(table[k], float(model[k])):
+            if not close_rel(table[k], float(model[k]), rtol):
                 fail = f"event {k}: code {table[k]!r}, model {float(model[k])!r}"
                 break
         if fail is None and not core.close(perf, float(F(rep["perf"]))):
@@ -1714,6 +1736,10 @@ def run(chk: core.Check):
         "itself (on the grid used — q>=1/20 and g2>=5e-6, or q=0 with dyadic beta,g2 — the float cancellation of "
         "p2=(1-x-sqrt(1-2x))/g2, about 3e-16/g2 <= 6e-11, stays below the comparison tolerance 1e-9; smaller g2 is "
         "not generated)",
+        "entries of a FILTERED event table are compared with the relative tolerance 1e-9 + 3e-16*n/(g2*p2): the "
+        "cancellation in the code's closed form for p2 is a relative error 1.5e-16/(g2*p2) of p2 (6e-6 at "
+        "brightness*g2 = 1e-5), which conditioning on a strict filter turns into a relative error of the entries "
+        "(counted in filtered_table_tolerance_widened); unconditioned probabilities keep 1e-9",
         "Source.simplify_distribution is left at its default False",
         "states are compared up to renaming of the non-zero distinguishability tags (complete invariant: "
         "occupation vectors per tag); for generate_samples an unannotated photon and the signal tag _:0 are identified",
@@ -1867,7 +1893,7 @@ def run(chk: core.Check):
     #     kind of observation (the sampler is left out: its test has no power at these probabilities; its event
     #     table is compared exactly)
     mags = list(MAG)
-    for _ in range(chk.pick(0, 3)):
+    for _ in range(chk.pick(0, 1)):
         for P0 in MAG:
             for _ in range(20):
                 P = {**P0, "eta": str(rng.choice(ETAS)), "r": str(rng.choice(RS)), "model": rng.choice([DIST, INDIST])}
